@@ -79,7 +79,11 @@ int vf_main(void) {
     m_mod_t *mod = vf_l1_mod(c, on_evt);
     mod->hook.on_start = on_start; mod->hook.on_stop = on_stop;
     mod->bound_mods = m_list_new(NULL, mem_dtor); VF_ASSUME(mod->bound_mods != NULL);
+#ifdef VF_OPS
+    mod->state = M_MOD_RUNNING;
+#else
     mod->state = nondet_bool() ? M_MOD_RUNNING : M_MOD_PAUSED;
+#endif
     c->stats.running_modules = mod->state == M_MOD_RUNNING ? 1 : 0;
     mod->tb.tokens = nondet_u64();
 
@@ -91,7 +95,13 @@ int vf_main(void) {
 
     size_t cfg_size = 0; uint64_t cfg_tmo = 0;         /* as registered: nothing configured */
     for (int step = 0; step < NOPS; step++) {
+#ifdef VF_OPS
+        /* concrete companion: the script is a per-job constant (a change that frees events on one of these paths
+         * makes the symbolic-script job run out of memory instead of failing: L1_NOTES "heap shape") */
+        static const unsigned char ops_fixed[NOPS] = VF_OPS; const unsigned op = ops_fixed[step];
+#else
         VF_PICK(op, 4);
+#endif
         int r;
         switch (op) {
         case 0: { size_t n = nondet_size_t(); r = m_mod_set_batch_size(mod, n); if (r == 0) cfg_size = n; break; }
